@@ -62,7 +62,8 @@ Section Main.
   Lemma side_no_mismatch st j : Side cfg (lends st) (borrows st) -> mismatched_lend cfg st j = false.
   Proof.
     intros HS. unfold mismatched_lend. destruct (zget (borrows st) j) as [b|] eqn:E; [|reflexivity].
-    destruct (HS j b E) as (_ & l & pr & Hl & Hp & Ha). rewrite Hp, Hl, Ha, Z.eqb_refl. reflexivity.
+    destruct (b_liq b) eqn:Hq; [reflexivity|].
+    destruct (HS j b E Hq) as (_ & l & pr & Hl & Hp & Ha). rewrite Hp, Hl, Ha, Z.eqb_refl. reflexivity.
   Qed.
 End Main.
 
